@@ -370,3 +370,30 @@ def char_closure_image(body, char_arg_local=2):
             raise Undecided("closure did not return")
         out[a] = r[1]
     return out
+
+
+def char_region_image(body, start_bb, env_fn, sink_re, sink_arg=1, stop_after=True):
+    """Image of a code region that computes a char from a char and hands it to a sink call (`s.push(f(c))`):
+    the region is entered at start_bb with the environment env_fn(atom) and evaluated until the first call matching
+    sink_re; returns dict atom -> the abstract value of that call's argument `sink_arg`."""
+    import re as _re
+    rx = _re.compile(sink_re)
+    out = {}
+
+    class _Hit(Exception):
+        def __init__(self, v):
+            self.v = v
+
+    def model(interp, env, t, argv):
+        if rx.search(t.get("callee") or ""):
+            raise _Hit(interp.deref_arg(env, argv[sink_arg]) if isinstance(argv[sink_arg], Ref) else argv[sink_arg])
+        return char_call_model(interp, env, t, argv)
+    it = Interp(body, call_model=model, sym_binop=char_sym_binop, sym_switch=char_sym_switch)
+    for a in char_atoms():
+        try:
+            r = it.run({}, start_bb=start_bb, env=env_fn(a))
+        except _Hit as h:
+            out[a] = h.v
+            continue
+        raise Undecided("the region does not reach the sink for atom %r" % (a,))
+    return out
